@@ -3,6 +3,7 @@
    Print Assumptions.  V is an arbitrary type of values (hence the reals), nrm an arbitrary
    norm function, wr an arbitrary per-representation storage map: nothing but positions matters. *)
 From DF Require Import Prelude Constants_gen Region Mesh Subregions Vtk C16_layout C16_locate.
+From DF Require Import C16_roundtrip C16_sidecar C16_legacy C16_witness.
 Open Scope Q_scope.
 
 (* Clause 1 (all sizes, all 3-d meshes, 1..any components, any labels that are not reserved):
@@ -107,3 +108,108 @@ Theorem C16_legacy_values : forall (V : Type) (d : V) (rows : list (list V)) (nx
   = nth c (nth (cell_id nx ny i j k) rows []) d.
 Proof. exact legacy_values. Qed.
 Print Assumptions C16_legacy_values.
+
+(* Clause 2, end to end (every 3-d mesh, every size, 1..any components, any value type, any norm):
+   reading the stored form of to_vtk f gives back n, the corners through the coordinate storage map
+   cw (==; identity for binary/XML, a ten-digit map for text -- guard: the stored corners keep their
+   order), the values through the value storage map wr, the validity mask, the labels
+   (guards = complements of the known findings: a scalar's label is not stored, no label is
+   'field'/'valid'/'norm'), and -- when the subregion setter of the read-back mesh accepts the
+   side-car (C14's subject; automatic failure otherwise, cf. C16_txt_subregions_refuted) -- the
+   saved subregions with unchanged names and corners. *)
+Theorem C16_roundtrip (V : Type) (d : V) (nrm : list V -> V) (vone vzero : V) (vtruth : V -> bool)
+  (cw : vrep -> Q -> Q) (wr : vrep -> V -> V) (r : vrep)
+  (x0 y0 z0 x1 y1 z1 tf_ : Q) (ds us : list string) (kx ky kz : Z) (bc_ : string)
+  (subs_ : list (string * region)) (nv : nat) (vd : option (list string)) (vals : list V)
+  (valid : list bool) (L : list string) :
+  (forall a b, a == b -> cw r a == cw r b) ->
+  vtruth (wr r vone) = true -> vtruth (wr r vzero) = false ->
+  (0 < kx)%Z -> (0 < ky)%Z -> (0 < kz)%Z ->
+  cw r x0 < cw r x1 -> cw r y0 < cw r y1 -> cw r z0 < cw r z1 ->
+  (1 <= nv)%nat ->
+  ((1 < nv)%nat -> vd = Some L /\ length L = nv) -> ((nv <= 1)%nat -> L = []) ->
+  nodupb L = true -> Forall (fun s => reserved s = false) L ->
+  length vals = (Z.to_nat kx * Z.to_nat ky * Z.to_nat kz * nv)%nat ->
+  length valid = (Z.to_nat kx * Z.to_nat ky * Z.to_nat kz)%nat ->
+  let m := mkMesh (mkRegion [x0; y0; z0] [x1; y1; z1] ds us tf_) [kx; ky; kz] bc_ subs_ in
+  let f := mkVF m nv vd vals valid in
+  let labels := if (1 <? nv)%nat then Some L else None in
+  exists g a0 a1 a2 b0 b1 b2,
+    to_vtk d nrm vone vzero f = OK g /\
+    (a0 == cw r x0 /\ a1 == cw r y0 /\ a2 == cw r z0) /\
+    (b0 == cw r x1 /\ b1 == cw r y1 /\ b2 == cw r z1) /\
+    let mr := read_mesh kx ky kz a0 a1 a2 b0 b1 b2 in
+    (* no side-car *)
+    from_vtk d vtruth (store cw wr r g) None = OK (mkVF mr nv labels (map (wr r) vals) valid) /\
+    (* side-car accepted by the subregion setter of the read-back mesh *)
+    (forall s m', json_load_tol align_tol mr s = OK m' -> Forall well_ordered s ->
+       from_vtk d vtruth (store cw wr r g) (Some s) = OK (mkVF m' nv labels (map (wr r) vals) valid) /\
+       reg m' = reg mr /\ n m' = [kx; ky; kz] /\ map corners (subs m') = map corners s) /\
+    (* side-car rejected by it: the whole read fails *)
+    (forall s, is_ok (json_load_tol align_tol mr s) = false ->
+       is_ok (from_vtk d vtruth (store cw wr r g) (Some s)) = false).
+Proof.
+  exact (@roundtrip_full V d nrm vone vzero vtruth cw wr r x0 y0 z0 x1 y1 z1 tf_ ds us kx ky kz bc_ subs_
+           nv vd vals valid L).
+Qed.
+Print Assumptions C16_roundtrip.
+
+Example C16_roundtrip_nonvacuous :
+  w_summary (w_trip wq_id (w_field 2 (Some ["p"; "q"]%string) w_vals2 [w_sub]) (Some [w_sub]))
+  = Some ([3; 1; 2]%Z, 2%nat, Some ["p"; "q"]%string, w_vals2, [true; false; true; true; false; true], ["s"%string]).
+Proof. exact roundtrip_nonvacuous. Qed.
+Print Assumptions C16_roundtrip_nonvacuous.
+
+(* Clause 3 as one theorem: a legacy point-data file whose coordinates are the cell centres of a mesh
+   with at least two cells per axis is read with that cell size, those corners (==), that n, one
+   value per cell in x-fastest file order, every cell valid. *)
+Theorem C16_legacy (V : Type) (d : V) (x0 y0 z0 x1 y1 z1 : Q) (kx ky kz : Z) (vec : bool) (rows : list (list V)) :
+  x0 < x1 -> y0 < y1 -> z0 < z1 -> (2 <= kx)%Z -> (2 <= ky)%Z -> (2 <= kz)%Z ->
+  let nx := Z.to_nat kx in let ny := Z.to_nat ky in let nz := Z.to_nat kz in
+  let dim := if vec then 3%nat else 1%nat in
+  (nx * ny * nz <= length rows)%nat ->
+  forallb (fun row => (length row =? dim)%nat) (firstn (nx * ny * nz) rows) = true ->
+  exists f', from_legacy d (mkLegacy [cells_axis x0 x1 kx; cells_axis y0 y1 ky; cells_axis z0 z1 kz] vec rows) None = OK f' /\
+    n (vf_mesh f') = [kx; ky; kz] /\
+    (exists a0 a1 a2 b0 b1 b2, pmin (reg (vf_mesh f')) = [a0; a1; a2] /\ pmax (reg (vf_mesh f')) = [b0; b1; b2] /\
+        a0 == x0 /\ a1 == y0 /\ a2 == z0 /\ b0 == x1 /\ b1 == y1 /\ b2 == z1) /\
+    legacy_cell (cells_axis x0 x1 kx) == cell_of x0 x1 kx /\
+    legacy_cell (cells_axis y0 y1 ky) == cell_of y0 y1 ky /\
+    legacy_cell (cells_axis z0 z1 kz) == cell_of z0 z1 kz /\
+    vf_nv f' = dim /\ length (vf_vals f') = (nx * ny * nz * dim)%nat /\
+    (forall i j k c, (i < nx)%nat -> (j < ny)%nat -> (k < nz)%nat -> (c < dim)%nat ->
+       nth (cpos ny nz dim i j k c) (vf_vals f') d = nth c (nth (cell_id nx ny i j k) rows []) d) /\
+    vf_valid f' = repeat true (nx * ny * nz).
+Proof. exact (@legacy V d x0 y0 z0 x1 y1 z1 kx ky kz vec rows). Qed.
+Print Assumptions C16_legacy.
+
+Example C16_legacy_nonvacuous :
+  exists f', from_legacy 0 (mkLegacy [cells_axis 0 2 2; cells_axis 0 3 3; cells_axis 1 2 2] false
+                                     [[1]; [2]; [3]; [4]; [5]; [6]; [7]; [8]; [9]; [10]; [11]; [12]]) None = OK f' /\
+    n (vf_mesh f') = [2; 3; 2]%Z /\ nth (cpos 3 2 1 1 2 0 0) (vf_vals f') 0 = 6.
+Proof. exact legacy_nonvacuous. Qed.
+Print Assumptions C16_legacy_nonvacuous.
+
+(* Refutation witnesses, only for the known findings: outside the guards of C16_roundtrip the
+   faithful model loses what the implementation loses. *)
+Theorem C16_scalar_label_refuted :
+  exists f f', w_trip wq_id f None = OK f' /\ vf_vdims f = Some ["s"%string] /\ vf_vdims f' = None.
+Proof. exact scalar_label_refuted. Qed.
+Print Assumptions C16_scalar_label_refuted.
+
+Theorem C16_label_field_refuted :
+  exists f g f', to_vtk 0 wq_norm 1 0 f = OK g /\ vf_vdims f = Some ["field"; "b"]%string /\
+    option_map fst (lookup_array "field" (g_cell g)) = Some 2%nat /\ length (g_cell g) = 4%nat /\
+    w_trip wq_id f None = OK f' /\ vf_vdims f' = Some ["x"; "y"]%string.
+Proof. exact label_field_refuted. Qed.
+Print Assumptions C16_label_field_refuted.
+
+Theorem C16_txt_keeps_ten_digits : forall rp x, Qabs (wq_txt rp x - x) <= (1 # 2000000000) * Qabs x.
+Proof. exact txt_keeps_ten_digits. Qed.
+Print Assumptions C16_txt_keeps_ten_digits.
+
+Theorem C16_txt_subregions_refuted :
+  exists f side, is_ok (w_trip wq_id f side) = true /\ is_ok (w_trip wq_txt f side) = false /\
+    side = Some (subs (vf_mesh f)) /\ subs (vf_mesh f) <> [].
+Proof. exact txt_subregions_refuted. Qed.
+Print Assumptions C16_txt_subregions_refuted.
